@@ -110,3 +110,210 @@ Example C04_overlap_gram_is_not_identity :
   tabulate [7] (DZ (adj (ArrayToBlocks [7] [3] [3])) (DZ (ArrayToBlocks [7] [3] [3]) ones)) = [1; 1; 1; 1; 1; 1; 0] /\
   tabulate [2; 3] (DZ (adj (BlocksToArray [6] [3] [2])) (DZ (BlocksToArray [6] [3] [2]) ones)) = [1; 1; 2; 2; 1; 1].
 Proof. vm_compute. repeat split; reflexivity. Qed.
+
+(* ================================================================================================================
+   library-backed leaf classes (FFT / IFFT, convolution, wavelets, NUFFT): their normal operators through the function
+   models (coq/proofs/Opaque*.v); the statements were prepared per family (notes/snippets) *)
+From SV Require Import lib.Coord model.Fourier model.Conv model.Wavelet model.OpaqueFourier model.OpaqueConv model.OpaqueWavelet
+  model.OpaqueNufft proofs.Fourier1D proofs.FourierND proofs.FourierModel proofs.FourierExample proofs.Wavelet
+  proofs.LinopStack proofs.LinopAll
+  proofs.OpaqueFourier proofs.OpaqueConv proofs.OpaqueWavelet proofs.OpaqueNufft.
+
+(* [fourier family] *)
+(* ---- C04: FFT.N = IFFT.N = Identity is A^H A on the box of the shape ---------------------------------------------
+   for every axes argument the class accepts; the table holds the powers of roots of unity w_n with the C05 hypotheses
+   (root_ok: 0 < n, w^n = 1, sum_k w^(k m) = 0 for 0 < m < n, conj w * w = 1) and isc n * isc n * n = 1, required ONLY
+   for the axis lengths n that occur in the shape *)
+Theorem C04_fourier_fft_normal :
+  forall (R : StarRing) (arr : Z -> list Z -> R) (scal : Z -> R) (orc : linop -> (list Z -> R) -> list Z -> R)
+         (tw : Z -> Z -> R) (isc inv w : Z -> R) s,
+    (forall n, In n s -> forall m, tw n m = opow (w n) (Z.to_nat m)) ->
+    (forall n, In n s -> root_ok R n (w n)) ->
+    (forall n, In n s -> mul (mul (isc n) (isc n)) (nR n) = one) ->
+    forall ax c,
+    wf (FFT s ax c) = true -> fourier_axes_ok s ax c = true ->
+    (forall x, orc (FFT s ax c) x = orc_fourier tw isc inv (FFT s ax c) x) ->
+    (forall x, orc (IFFT s ax c) x = orc_fourier tw isc inv (IFFT s ax c) x) ->
+    forall x o, inbox (ishape_of (FFT s ax c)) o ->
+      D R arr scal orc (normal (FFT s ax c)) x o = D R arr scal orc (adj (FFT s ax c)) (D R arr scal orc (FFT s ax c) x) o.
+Proof. exact proofs.OpaqueFourier.normal_fft. Qed.
+Print Assumptions C04_fourier_fft_normal.
+
+(* [fourier family] *)
+Theorem C04_fourier_ifft_normal :
+  forall (R : StarRing) (arr : Z -> list Z -> R) (scal : Z -> R) (orc : linop -> (list Z -> R) -> list Z -> R)
+         (tw : Z -> Z -> R) (isc inv w : Z -> R) s,
+    (forall n, In n s -> forall m, tw n m = opow (w n) (Z.to_nat m)) ->
+    (forall n, In n s -> root_ok R n (w n)) ->
+    (forall n, In n s -> mul (mul (isc n) (isc n)) (nR n) = one) ->
+    forall ax c,
+    wf (IFFT s ax c) = true -> fourier_axes_ok s ax c = true ->
+    (forall x, orc (IFFT s ax c) x = orc_fourier tw isc inv (IFFT s ax c) x) ->
+    (forall x, orc (FFT s ax c) x = orc_fourier tw isc inv (FFT s ax c) x) ->
+    forall x o, inbox (ishape_of (IFFT s ax c)) o ->
+      D R arr scal orc (normal (IFFT s ax c)) x o = D R arr scal orc (adj (IFFT s ax c)) (D R arr scal orc (IFFT s ax c) x) o.
+Proof. exact proofs.OpaqueFourier.normal_ifft. Qed.
+Print Assumptions C04_fourier_ifft_normal.
+
+(* [fourier family] *)
+(* node form with the C05-style hypotheses (every n > 0) *)
+Theorem C04_fourier_nodes_normal :
+  forall (R : StarRing) (arr : Z -> list Z -> R) (scal : Z -> R) (orc : linop -> (list Z -> R) -> list Z -> R)
+         (tw : Z -> Z -> R) (isc inv w : Z -> R),
+    (forall L, fourier_leaf L = true -> forall x, orc L x = orc_fourier tw isc inv L x) ->
+    (forall n m, 0 < n -> tw n m = opow (w n) (Z.to_nat m)) ->
+    (forall n, 0 < n -> root_ok R n (w n)) ->
+    (forall n, 0 < n -> mul (mul (isc n) (isc n)) (nR n) = one) ->
+    forall L, proven_node_fourier L = true -> wf L = true ->
+    forall x o, inbox (ishape_of L) o ->
+      D R arr scal orc (normal L) x o = D R arr scal orc (adj L) (D R arr scal orc L x) o.
+Proof. exact proofs.OpaqueFourier.nodes_fourier_normal. Qed.
+Print Assumptions C04_fourier_nodes_normal.
+
+(* [fourier family] *)
+(* the function-level statement: ifft (fft x) = x and fft (ifft x) = x on the box *)
+Theorem C04_fourier_call_inverse :
+  forall (R : StarRing) (tw : Z -> Z -> R) (isc inv w : Z -> R) s,
+    Forall (fun n => 0 < n) s ->
+    (forall n, In n s -> forall m, tw n m = opow (w n) (Z.to_nat m)) ->
+    (forall n, In n s -> root_ok R n (w n)) ->
+    (forall n, In n s -> mul (mul (isc n) (isc n)) (nR n) = one) ->
+    forall inverse axes center (x : list Z -> R),
+      fourier_axes_ok s axes center = true ->
+      eqbox s (snd (fft_model tw isc inv (negb inverse) center true s None axes
+                      (snd (fft_model tw isc inv inverse center true s None axes x)))) x.
+Proof. exact proofs.OpaqueFourier.fourier_call_inverse. Qed.
+Print Assumptions C04_fourier_call_inverse.
+
+(* [fourier family] *)
+Example C04_fourier_normal_example : forall (arr : Z -> list Z -> QIRing) (scal : Z -> QIRing),
+  let orc := orc_fourier of_ex_tw of_ex_isc of_ex_inv in
+  (forall x o, inbox [4; 1; 4] o ->
+     D QIRing arr scal orc (normal of_ex_fft) x o = D QIRing arr scal orc (adj of_ex_fft) (D QIRing arr scal orc of_ex_fft x) o) /\
+  (forall x o, inbox [4; 4] o ->
+     D QIRing arr scal orc (normal of_ex_ifft) x o = D QIRing arr scal orc (adj of_ex_ifft) (D QIRing arr scal orc of_ex_ifft x) o).
+Proof. exact proofs.OpaqueFourier.ex_fourier_normal. Qed.
+
+
+(* [conv family] *)
+(* C04 side: .N of the four classes is the default composition, D (normal L) = D (adj L) o D L for any oracle *)
+Theorem C04_conv_normal_is_adjoint_after_forward :
+  forall (R : StarRing) (arr : Z -> list Z -> R) (scal : Z -> R) (orc : linop -> (list Z -> R) -> list Z -> R) L x,
+    proven_node_conv L = true ->
+    D R arr scal orc (normal L) x = D R arr scal orc (adj L) (D R arr scal orc L x).
+Proof. exact normal_conv. Qed.
+Print Assumptions C04_conv_normal_is_adjoint_after_forward.
+
+(* [wavelet family] *)
+(* C04: neither class overrides _normal_linop, so A.N is the composition A.H * A for both ... *)
+Theorem C04_wavelet_normal_is_default :
+  forall s ax w l ws,
+    normal (Wavelet s ax w l ws) = Compose [InverseWavelet s ax w l ws; Wavelet s ax w l ws] /\
+    normal (InverseWavelet s ax w l ws) = Compose [Wavelet s ax w l ws; InverseWavelet s ax w l ws].
+Proof. exact normal_wavelet_is_default. Qed.
+Print Assumptions C04_wavelet_normal_is_default.
+
+(* [wavelet family] *)
+Theorem C04_wavelet_family_normal :
+  forall (R : StarRing) (arr : Z -> list Z -> R) (scal : Z -> R) (orc : linop -> (list Z -> R) -> list Z -> R) L x,
+    is_wavelet_leaf L = true -> D R arr scal orc (normal L) x = D R arr scal orc (adj L) (D R arr scal orc L x).
+Proof. exact normal_nodes_wavelet. Qed.
+Print Assumptions C04_wavelet_family_normal.
+
+(* [wavelet family] *)
+(* ... and Wavelet.N acts as the Identity on the input box (hypothesis: C10's perfect reconstruction of the pair) *)
+Theorem C04_wavelet_normal_acts_as_identity :
+  forall (R : StarRing) (arr : Z -> list Z -> R) (scal : Z -> R) (orc : linop -> (list Z -> R) -> list Z -> R)
+         (cs : option (list Z) -> Z -> option Z -> list Z -> list Z)
+         (WW WWr : option (list Z) -> Z -> option Z -> list Z -> (list Z -> R) -> list Z -> R)
+         (i : list Z) (ax : option (list Z)) (w : Z) (l : option Z) (ws : list Z),
+    (forall x, orc (Wavelet i ax w l ws) x = orc_wavelet cs WW WWr (Wavelet i ax w l ws) x) ->
+    (forall x, orc (InverseWavelet i ax w l ws) x = orc_wavelet cs WW WWr (InverseWavelet i ax w l ws) x) ->
+    forall (x : list Z -> R) (o : list Z),
+    wf (Wavelet i ax w l ws) = true ->
+    (forall z : list Z -> R, eqbox (zshape i) (WWr ax w l (zshape i) (WW ax w l (zshape i) z)) z) ->
+    inbox (ishape_of (Wavelet i ax w l ws)) o ->
+    D R arr scal orc (normal (Wavelet i ax w l ws)) x o = x o /\
+    D R arr scal orc (normal (Wavelet i ax w l ws)) x o = D R arr scal orc (Identity i) x o.
+Proof. exact normal_wavelet_identity. Qed.
+Print Assumptions C04_wavelet_normal_acts_as_identity.
+
+(* [wavelet family] *)
+(* InverseWavelet.N = W W^H is NOT the identity (the coefficient box is larger than the padded box); it is idempotent
+   on the coefficient box *)
+Theorem C04_inverse_wavelet_normal_is_projection :
+  forall (R : StarRing) (arr : Z -> list Z -> R) (scal : Z -> R) (orc : linop -> (list Z -> R) -> list Z -> R)
+         (cs : option (list Z) -> Z -> option Z -> list Z -> list Z)
+         (WW WWr : option (list Z) -> Z -> option Z -> list Z -> (list Z -> R) -> list Z -> R)
+         (o : list Z) (ax : option (list Z)) (w : Z) (l : option Z) (ws : list Z),
+    ws = wavelet_shape (cs ax w l) o ->
+    (forall x, orc (Wavelet o ax w l ws) x = orc_wavelet cs WW WWr (Wavelet o ax w l ws) x) ->
+    (forall x, orc (InverseWavelet o ax w l ws) x = orc_wavelet cs WW WWr (InverseWavelet o ax w l ws) x) ->
+    forall y : list Z -> R,
+    wf (InverseWavelet o ax w l ws) = true ->
+    (forall z : list Z -> R, eqbox (zshape o) (WWr ax w l (zshape o) (WW ax w l (zshape o) z)) z) ->
+    (forall a b : list Z -> R, eqbox (zshape o) a b -> eqbox ws (WW ax w l (zshape o) a) (WW ax w l (zshape o) b)) ->
+    eqbox ws (D R arr scal orc (normal (InverseWavelet o ax w l ws))
+                (D R arr scal orc (normal (InverseWavelet o ax w l ws)) y))
+             (D R arr scal orc (normal (InverseWavelet o ax w l ws)) y).
+Proof. exact normal_inverse_wavelet_projection. Qed.
+Print Assumptions C04_inverse_wavelet_normal_is_projection.
+
+(* [nufft family] *)
+(* _normal_linop (C04): the model's normal of both classes is the default composition A.H * A — what python returns for
+   toeplitz = False.  For toeplitz = True python returns Resize.H * FFT.H * Multiply(psf) * FFT * Resize with
+   psf = toeplitz_psf(coord, ...): an APPROXIMATION of A.H * A by design (gridding error of the PSF), no exact identity;
+   it stays the numeric check of props/C06.py (`toeplitz`, 5e-2) / props/C04.py. *)
+Theorem C04_nufft_normal_is_default : forall L, is_nufft L = true -> normal L = mkCompose [adj L; L].
+Proof. exact normal_nufft_default. Qed.
+Print Assumptions C04_nufft_normal_is_default.
+
+(* ================================================================================================================
+   C04 for every class, with the standard oracle of the library-backed leaves (model/OpaqueStd.v, proofs/OpaqueStd.v):
+   the FFT-unitarity hypothesis of C04_normal_is_AHA is discharged from the root-of-unity facts about the twiddle
+   table of the environment (the form Prop_C05 assumes) — FFT.N = IFFT.N = Identity acts as A^H A on the box; every
+   other library-backed class has the default N = A.H * A (NUFFT with toeplitz=True: python returns an approximation
+   by design — numeric check only); Wavelet.N additionally acts as the identity.
+   ================================================================================================================ *)
+From SV Require Import model.OpaqueStd proofs.OpaqueStd.
+
+Theorem C04_normal_is_AHA_std :
+  forall (R : StarRing) (C : COps) (E : std_env R C) (arr : Z -> list Z -> R) (scal w : Z -> R) (A : linop)
+         (x : list Z -> R) idx,
+    (e_tw E = twf R w /\ (forall n, 0 < n -> root_ok R n (w n)) /\
+     (forall n, 0 < n -> mul (mul (e_isc E n) (e_isc E n)) (nR n) = one)) ->
+    wf A = true ->
+    normal_proved A && match A with FFT _ _ _ | IFFT _ _ _ => proven_node_fourier A | _ => true end = true ->
+    inbox (ishape_of A) idx ->
+    D R arr scal (orc_std E arr) (normal A) x idx = D R arr scal (orc_std E arr) (adj A) (D R arr scal (orc_std E arr) A x) idx.
+Proof. exact normal_correct_std. Qed.
+Print Assumptions C04_normal_is_AHA_std.
+
+Theorem C04_wavelet_normal_is_AHA_and_identity_std :
+  forall (R : StarRing) (C : COps) (E : std_env R C) (arr : Z -> list Z -> R) (scal : Z -> R) i ax wv l ws
+         (x : list Z -> R) o,
+    (forall s ax wv l, Forall (fun n => 0 < n) s ->
+       pywt_axes_ok (lenZ s) ax = true -> pywt_level_ok l = true -> e_orth E wv = true ->
+       forall z : list Z -> R, eqbox (zshape s) (e_WWr E ax wv l (zshape s) (e_WW E ax wv l (zshape s) z)) z) ->
+    wavelet_leaf_ok (e_orth E) (e_cs E) (Wavelet i ax wv l ws) = true -> wf (Wavelet i ax wv l ws) = true ->
+    inbox (ishape_of (Wavelet i ax wv l ws)) o ->
+    D R arr scal (orc_std E arr) (normal (Wavelet i ax wv l ws)) x o =
+      D R arr scal (orc_std E arr) (adj (Wavelet i ax wv l ws)) (D R arr scal (orc_std E arr) (Wavelet i ax wv l ws) x) o /\
+    D R arr scal (orc_std E arr) (normal (Wavelet i ax wv l ws)) x o = x o.
+Proof. exact normal_wavelet_identity_std. Qed.
+Print Assumptions C04_wavelet_normal_is_AHA_and_identity_std.
+
+Theorem C04_library_backed_default_normal :
+  forall (R : StarRing) (C : COps) (E : std_env R C) (arr : Z -> list Z -> R) (scal : Z -> R) A (x : list Z -> R),
+    library_backed A = true -> no_fft A = true ->
+    D R arr scal (orc_std E arr) (normal A) x = D R arr scal (orc_std E arr) (adj A) (D R arr scal (orc_std E arr) A x).
+Proof. exact normal_default_opaque. Qed.
+Print Assumptions C04_library_backed_default_normal.
+
+(* non-vacuity: the exact Q(i) environment of proofs/OpaqueStd.v, FFT with negative and repeated axes at length 4 *)
+Example C04_std_normal_fft_example : forall (arr : Z -> list Z -> QIRing) (scal : Z -> QIRing),
+  forall x o, inbox [4; 4] o ->
+    D QIRing arr scal (orc_std ex_env arr) (normal (FFT [4; 4] (Some [-1; 0; 1]) true)) x o =
+    D QIRing arr scal (orc_std ex_env arr) (adj (FFT [4; 4] (Some [-1; 0; 1]) true))
+      (D QIRing arr scal (orc_std ex_env arr) (FFT [4; 4] (Some [-1; 0; 1]) true) x) o.
+Proof. exact ex_normal_fft. Qed.
